@@ -224,7 +224,7 @@ fn has_error_with_id(b: &BinResult, ids: &[&str], file: Option<&Path>) -> bool {
 
 fn case(ctx: &Ctx, tape: &[u8], rec: &Rec) -> Verdict {
     let mut t = Tape::new(tape);
-    let mut o = ProjOpts { max_files: 2, max_defs: 2, comments: false, main_component: true, clean: true, bom_chance: 0, sugar_chance: 0 };
+    let mut o = ProjOpts { max_files: 2, max_defs: 2, comments: false, main_component: true, clean: true, bom_chance: 0, sugar_chance: 0, name_more_chance: 140, reverse_chance: 128 };
     if t.chance(80) {
         o.comments = true;
     }
